@@ -1,0 +1,14 @@
+//go:build verif
+// +build verif
+
+package types
+
+// Machine-checked contracts for small helpers (read by /verif/engine, see /verif/DESIGN.md).
+// This file contains comments only and is excluded from every normal build by the tag "verif".
+
+/*@
+contract FindString
+  ensures result == (exists k in 0..len(slice) :: slice[k] == target)
+  modifies nothing
+  loop 1 invariant forall k in 0..idx1 :: slice[k] != target
+@*/
